@@ -139,7 +139,7 @@ impl Server for Fake {
 type StrFut = Pin<Box<dyn Future<Output = String> + Send>>;
 
 /// Resolves to None (dropping the inner future) the first time the inner future is pending.
-struct GiveUpWhenPending<F>(Pin<Box<F>>);
+pub(crate) struct GiveUpWhenPending<F>(pub(crate) Pin<Box<F>>);
 impl<F: Future> Future for GiveUpWhenPending<F> {
     type Output = Option<F::Output>;
     fn poll(mut self: Pin<&mut Self>, cx: &mut std::task::Context<'_>) -> std::task::Poll<Self::Output> {
